@@ -34,6 +34,12 @@ package diff
 // Instruction-equivalence comparisons in matchUsers stay within |usersOld| x MaxCandidates (ghost counter cmp).
 //@ func (*Zipper).matchUsers
 //@   noframe
+//@   protocol-only C09
+// C09: a new instruction is paired at most once: it is handed to recordInstrMatch only while it is unmapped (or the
+// old instruction is already mapped, in which case recordInstrMatch does nothing) - the second precondition of
+// recordInstrMatch, obliged at the call site. It survives the call to areEquivalent in between because the inferred
+// write set of areEquivalent contains no map of the type of instrMap / revInstrMap.
+//@   ensures [C09.maps] true
 //@   ghost cmp int
 //@   init cmp = 0
 //@   call (*Zipper).areEquivalent update cmp = cmp + 1
@@ -131,7 +137,7 @@ package diff
 //@ pred lockstep(z *Zipper) = forall a: ssa.Instruction :: (a in z.instrMap) ==> (z.instrMap[a] in z.revInstrMap) && z.revInstrMap[z.instrMap[a]] == a
 
 //@ func (*Zipper).recordInstrMatch
-//@   requires [C09.maps] z != nil && z.instrMap != nil && z.revInstrMap != nil && z.instrMap != z.revInstrMap && lockstep(z)
+//@   requires z != nil && z.instrMap != nil && z.revInstrMap != nil && z.instrMap != z.revInstrMap && lockstep(z)
 //@   requires [C09.maps] (old in z.instrMap) || !(new in z.revInstrMap)
 //@   modifies z.instrMap
 //@   modifies z.revInstrMap
